@@ -24,7 +24,8 @@ CONSTANTS Configs,     \* set of configuration records (one initial state each)
           SmallMsg,    \* size of the small DATA message
           BigMsg,      \* size of the big DATA message (> every maxBytes > 0)
           MaxErr,      \* error threshold (3 in the code)
-          Alphabet     \* set of command families enabled in this instance
+          Alphabet,    \* set of command families enabled in this instance
+          RcptBound    \* recipients per transaction explored (bounds the model only)
 
 VARIABLES cfg,   \* the configuration of this server
           st,    \* connection state record
@@ -202,7 +203,7 @@ Rcpt(v) ==
      ELSE IF v = "unkparam" THEN Just(cmd, R(500, <<5, 5, 4>>))
      ELSE IF v = "notify" /\ ~cfg.dsn THEN Just(cmd, R(504, <<5, 5, 4>>))
      ELSE IF v = "rej" THEN st' = st /\ Emit(cmd, <<R(451, <<4, 0, 0>>)>>, <<CB("Rcpt", st.sess)>>)
-     ELSE /\ st.nrcpt < 3
+     ELSE /\ st.nrcpt < RcptBound
           /\ st' = [st EXCEPT !.nrcpt = @ + 1]
           /\ Emit(cmd, <<R(250, <<2, 0, 0>>)>>, <<CB("Rcpt", st.sess)>>)
 
@@ -368,8 +369,9 @@ AuthNoArg ==
 \* bad base64 initial response / unknown mechanism
 AuthBad(v) ==
   /\ InCmdMode /\ "auth" \in Alphabet
-  /\ st.helo /\ ~st.didAuth
-  /\ IF ~AuthAllowed THEN Just(Cmd("AUTH", v), R(523, <<5, 7, 10>>))
+  /\ IF ~st.helo THEN Just(Cmd("AUTH", v), R(502, <<5, 5, 1>>))
+     ELSE IF st.didAuth THEN Just(Cmd("AUTH", v), R(503, <<5, 5, 1>>))
+     ELSE IF ~AuthAllowed THEN Just(Cmd("AUTH", v), R(523, <<5, 7, 10>>))
      ELSE IF v = "badir" THEN Just(Cmd("AUTH", v), R(454, <<4, 7, 0>>))
      ELSE IF ~cfg.authBackend THEN Just(Cmd("AUTH", v), R(504, <<5, 7, 4>>))
      ELSE st' = st /\ Emit(Cmd("AUTH", v), <<R(504, <<5, 7, 4>>)>>, <<CB("Auth", st.sess)>>)
@@ -436,7 +438,7 @@ Spec == Init /\ [][Next]_vars
 (* are action formulas over `last'` and the pre-state.                       *)
 
 TypeOK ==
-  /\ st.nrcpt \in 0..3 /\ st.sess \in 0..3 /\ st.errCount \in 0..MaxErr
+  /\ st.nrcpt \in 0..RcptBound /\ st.sess \in 0..3 /\ st.errCount \in 0..MaxErr
   /\ st.bdat \in {"none", "open", "dead"}
 
 \* The observer (callbacks + replies only) and the server agree on the envelope:
@@ -539,7 +541,7 @@ C07_PositiveOnlyAfterEOF ==
 C08_LogoutOnce == \A s \in 1..3 : obs.logouts[s] <= 1
 C08_AllLoggedOutAtClose == st.closed => (obs.live = {} /\ \A s \in 1..st.nsess : obs.logouts[s] = 1)
 C08_NothingAfterClose ==
-  [][ st.closed => (last'.replies = <<>> /\ last'.cbs = <<>> /\ st' = st) ]_vars
+  [][ (st.closed /\ last'.cmd.c # "init") => (last'.replies = <<>> /\ last'.cbs = <<>> /\ st' = st) ]_vars
 C08_NoCallbackOnDeadSession ==
   [][ \A i \in DOMAIN last'.cbs :
         LET cb == last'.cbs[i] IN
